@@ -69,15 +69,23 @@ Print Assumptions C17_observers_spec.
    pos / n (size_t incl. npos) / zero / one: the precondition fires exactly when std throws
    (out_of_range: pos > size; invalid_argument: one of the min(n, size-pos) characters is neither
    zero nor one); otherwise the array is well formed and stands for the standard's value (last used
-   character = bit 0, only the first Bits characters used) *)
+   character = bit 0, only the first Bits characters used).  char const*: the string_view constructor applied
+   to the characters in front of the first NUL (n = npos) or to the first n characters of the array *)
 Theorem C17_constructors_spec : forall bits k, 0 < bits ->
   (forall val, wf bits k (of_ullong bits (2 ^ k) (ones (2 ^ k)) (ones 64) val)
                /\ abs bits k (of_ullong bits (2 ^ k) (ones (2 ^ k)) (ones 64) val) = s_of_ullong bits val)
-  /\ forall str pos n zero one,
+  /\ (forall str pos n zero one,
      match of_string bits (2 ^ k) (ones (2 ^ k)) (ones 64) str pos n zero one with
      | Ok ws => wf bits k ws /\ s_of_string bits str pos n zero one = SOk (abs bits k ws)
      | Contract => s_of_string bits str pos n zero one = SOutOfRange
                    \/ s_of_string bits str pos n zero one = SInvalid
+     | _ => False
+     end)
+  /\ forall arr counted zero one,
+     match of_cstring bits (2 ^ k) (ones (2 ^ k)) (ones 64) arr counted zero one with
+     | Ok ws => wf bits k ws /\ s_of_cstring bits arr counted zero one = SOk (abs bits k ws)
+     | Contract => s_of_cstring bits arr counted zero one = SOutOfRange
+                   \/ s_of_cstring bits arr counted zero one = SInvalid
      | _ => False
      end.
 Proof. exact constructors_spec_all. Qed.
@@ -110,7 +118,9 @@ Print Assumptions C17_popcount_fallback.
 
 (* non-vacuity: the hypotheses are satisfiable and the conclusions non-trivial at widths one below
    a word multiple, at it and above it: concrete histories (string constructor "1000001" resp. 2^63+1,
-   flip all, set the top bit, proxy copy, a failing position, a foreign character, pos > size)
+   flip all, set the top bit, proxy copy, a failing position, a foreign character, pos > size, proxy copy
+   within one object (different bits, the same bit, a failing source), x op= x, the char const* constructor
+   with a NUL inside the array (uncounted: ends there; counted: a foreign character unless zero is NUL))
    evaluated on model and spec *)
 Example C17_nonvacuous :
   run_m 7 8 (init_m 7 8) (nv_ops 6) = s_run 7 (s_init 7) (nv_ops 6)
@@ -119,6 +129,9 @@ Example C17_nonvacuous :
   /\ map (option_map (fun r => (o_count (fst r), o_all (fst r), snd r))) (run_m 65 64 (init_m 65 64) (nv_ops 64))
      = [Some (2, false, []); Some (63, false, []); Some (63, false, []); Some (0, false, []);
         Some (65, true, []); Some (65, true, []); Some (63, false, []); Some (63, false, [true; true; true; false]);
-        None; Some (1, false, []); None; None; Some (64, false, [])]
-  /\ fst (final_state 65 6 (init_m 65 64) (nv_ops 64)) = [18446744073709551614; 1]%N.
+        None; Some (1, false, []); None; None; Some (64, false, []);
+        Some (63, false, []); Some (63, false, []); None; Some (63, false, []); Some (63, false, []);
+        Some (2, false, []); None; Some (1, false, []); Some (0, false, [])]
+  /\ fst (final_state 65 6 (init_m 65 64) (firstn 13 (nv_ops 64))) = [18446744073709551614; 1]%N
+  /\ fst (final_state 65 6 (init_m 65 64) (firstn 21 (nv_ops 64))) = [2; 0]%N.
 Proof. exact nonvacuous. Qed.
